@@ -78,9 +78,10 @@ Definition key_of (tok : str) : str := key_with key_chain tok.
 Definition has_eq_after_first (tok : str) : bool :=
   match tok with [] => false | c :: t => negb (c =? c_eq) && mem c_eq t end.
 
-(* take_valueish returns the token alone (attached value): --long=VAL, or sticky -Cpath / -cname=value *)
+(* take_valueish returns the token alone (attached value): --long=VAL, or sticky -Cpath / -cname=value.
+   (The two pure conjuncts of the first test are written in the other order than in the source.) *)
 Definition takes_alone (tok key : str) : bool :=
-  (has_eq_after_first tok && starts_with dd tok)
+  (starts_with dd tok && has_eq_after_first tok)
   || existsb (fun k => str_eqb key k && negb (str_eqb tok k) && starts_with k tok) sticky_keys.
 
 (* take_valueish(all, i, key) with tok = all[i], rest = all[i+1..]: (tokens to push, unread rest) *)
@@ -151,9 +152,10 @@ Fixpoint version_filter (dropped : bool) (l : list str) : list str :=
 
 Definition not_help_version (t : str) : bool := negb (is_help_tok t || is_version_tok t).
 
-(* everything after the loop *)
-Definition finish (s : list str * list str * bool * list str) : parsed :=
-  let '(g, pre, sdd, rest) := s in
+(* everything after the loop, except the (untouched) global_args:
+   (command, command_args, is_help) from pre_command_meta, saw_end_of_opts and args[i..] *)
+Definition finish_core (pre : list str) (sdd : bool) (rest : list str)
+  : option str * list str * bool :=
   (* "if command.is_none()": always the case here *)
   let '(cmd, rest') :=
     match rest with
@@ -179,6 +181,11 @@ Definition finish (s : list str * list str * bool * list str) : parsed :=
   let ish :=
     (match cmd1 with Some c => existsb (str_eqb c) is_help_commands | None => false end)
     || existsb is_help_tok pre || existsb is_help_tok cargs1 in
+  (cmd1, cargs1, ish).
+
+Definition finish (s : list str * list str * bool * list str) : parsed :=
+  let '(g, pre, sdd, rest) := s in
+  let '(cmd1, cargs1, ish) := finish_core pre sdd rest in
   mkParsed g cmd1 cargs1 sdd ish.
 
 (* parse_git_cli_args *)
